@@ -43,6 +43,7 @@ def plan(tier, seed):
         shards.append(("overlap_tall", c, 4))
     for c in range(4):
         shards.append(("sched", c, 4, tier))
+    shards.append(("overlap_realloc",))
     if tier == "quick":
         # a slice of the 2x3 pair space as well (every 64th first frame)
         for c in range(16):
@@ -296,6 +297,38 @@ def _run_overlap(desc):
     return sh
 
 
+def _run_overlap_realloc(desc):
+    """the caching overlap objects start with room for 16 pixels / 4 peaks: frames that force a reallocation, then small frames
+    again on the SAME objects"""
+    mods = _mods()
+    sh = Shard()
+    big1 = (np.repeat(np.arange(6), 6).astype(np.uint16), np.tile(np.arange(6), 6).astype(np.uint16), (np.arange(36) % 7 + 1).astype(np.int32))
+    big2 = (np.repeat(np.arange(1, 7), 5).astype(np.uint16), np.tile(np.arange(5), 6).astype(np.uint16), (np.arange(30) % 5 + 1).astype(np.int32))
+    small = [frame_from_code(x, (2, 2)) for x in (27, 228, 255, 1, 64)]
+    seq = [small[0], big1, small[1], big2, big1, small[2], small[3], big2, small[4]]
+    sf, cI, lin, mat = mods
+    for a in range(len(seq)):
+        for b in range(len(seq)):
+            f1, f2 = seq[a], seq[b]
+            want = oracle_overlap(f1, f2)
+            n1, n2 = int(f1[2].max()), int(f2[2].max())
+            case = {"kind": "overlap_realloc", "first": a, "second": b}
+            import io, contextlib
+            with contextlib.redirect_stdout(io.StringIO()):
+                ne, rcl = lin(f1[0], f1[1], f1[2], n1, f2[0], f2[1], f2[2], n2)
+                nov, res = mat(f1[0], f1[1], f1[2], n1, f2[0], f2[1], f2[2], n2)
+            got = {} if rcl is None else {(int(x), int(y)): int(z) for x, y, z in rcl}
+            got2 = {(int(x), int(y)): int(z) for x, y, z in res}
+            if got != want:
+                sh.violation("overlaps_linear:wrong-after-reallocation", case, {"got": sorted(got.items())[:6], "expected": sorted(want.items())[:6]})
+            if got2 != want:
+                sh.violation("overlaps_matrix:wrong-after-reallocation", case, {"got": sorted(got2.items())[:6], "expected": sorted(want.items())[:6]})
+            sh.evaluations += 1
+            sh.nontrivial += 1
+    sh.sample(case, limit=1)
+    return sh
+
+
 def _run_overlap23(desc):
     _, c, nch = desc
     mods = _mods()
@@ -369,6 +402,8 @@ def _run_sched(desc):
 def run_shard(desc):
     if desc[0] == "sched":
         return _run_sched(desc)
+    if desc[0] == "overlap_realloc":
+        return _run_overlap_realloc(desc)
     if desc[0] == "overlap_tall":
         return _run_overlap_tall(desc)
     return {"round": _run_round, "sort": _run_sort, "edge": _run_edge, "overlap": _run_overlap,
@@ -377,7 +412,9 @@ def run_shard(desc):
 
 def replay(case):
     sh = Shard()
-    if case["kind"] == "sched":
+    if case["kind"] == "overlap_realloc":
+        sh.violations = _run_overlap_realloc(("overlap_realloc",)).violations
+    elif case["kind"] == "sched":
         tier = "quick" if case["shape"] == [3, 3] else "thorough"
         for c in range(4):
             r = _run_sched(("sched", c, 4, tier))
